@@ -251,7 +251,12 @@ def run(chk):
             pv = sorted(e.get("prev") or ["?"])
             dropped.append((e["reader"].split(":")[1], pv[0]) if len(pv) == 1 else e["site"][2])
     unexpected = [d for d in dropped if d not in ex]
-    chk.ob("R09.7", "SigningKey.from_der drops only documented remainders %s" % sorted(dropped), not unexpected, loc=f.qname, key="C09|R09.7", detail="undocumented dropped remainder: %s" % unexpected)
+    chk.ob("R09.7", "SigningKey.from_der drops only documented remainders %s" % sorted(dropped, key=repr), not unexpected, loc=f.qname, key="C09|R09.7", detail="undocumented dropped remainder: %s" % unexpected)
+    for k_, why_ in sorted(ex.items()):
+        if k_ == ("remove_octet_string", "remove_integer"):
+            continue      # this remainder is consumed on the ssleay path (parameters follow), so it is never seen as dropped path-insensitively
+        chk.ob("R09.7", "SigningKey.from_der still tolerates what follows %s after %s (%s)" % (k_[0], k_[1], why_[:60]), k_ in dropped, loc=f.qname, key="C09|R09.7|tolerance|%s|%s" % k_,
+               detail="from_der now insists that nothing follows the element read by %s after %s: keys written by independent encoders with the optional fields (%s) no longer load" % (k_[0], k_[1], why_))
     for e in res_vk:
         chk.ob("R09.7", "VerifyingKey.from_der: remainder of `%s` consumed or proven empty" % e["site"][2][:50], e["ok"], loc=short(e["site"]), key="C09|R09.7|vk|%s" % e["site"][2][:50], detail=e["why"])
     # ---------------- R09.2 registry
